@@ -53,6 +53,10 @@ OBLIGATIONS = [
     "C11_src_program_is_fit_run", "C11_src_program_without_logging", "C11_src_logging_transparent",
     "C11_src_observers_guarded", "C11_src_observers_erased", "C11_src_observer_frame", "C11_src_example",
     "C11_src_logging_transparent_state",
+    # what the observers' methods do, read from the source (Api/ObserverSrc*.v, coq/gen/GenC11Obs.v): `read_only` discharged
+    "C11_src_observers_read_only_from_source", "C11_src_logging_transparent_observers_from_source",
+    "C11_src_logging_transparent_canonical_observers", "C11_src_observer_frame_from_source",
+    "C11_src_forbidden_observer_op_refuted", "C11_src_observer_ops_example",
 ]
 
 
